@@ -51,11 +51,20 @@ def check_var(g, v, ctx, tag="output"):
         got = v.da.compute()
     except Exception as e:
         return ("compute_raises", short_tb(e), f"raise:{type(e).__name__}:{exc_site(e)}{z}")
-    r = same(v.np, got, v.inx, v.mag)
+    r = same(v.np, got, v.inx, v.mag, eps=v.eps)
     if r is not None:
         step = g.steps[v.id]
         fn = step["p"].get("fn") if isinstance(step["p"], dict) else None
-        return ("mismatch", r, f"mismatch:{step['op']}:{fn}:{r.split()[0]}{z}")
+        mech = f"mismatch:{step['op']}:{fn}:{r.split()[0]}{z}"
+        if r.startswith("dtype") and step["op"] in ("tensordot", "matmul", "einsum") and v.np.dtype.kind in "iu" and v.np.dtype.itemsize < 8 and np.asarray(got).dtype.itemsize == 8:
+            mech = "mismatch:int_contraction:dtype_promoted_to_64bit"
+        if step["op"] == "getitem" and r.startswith("shape"):
+            from vf.checks.c12 import nonadjacent_int_list
+            from vf.gen import dec_index
+
+            if nonadjacent_int_list(dec_index(step["p"]["idx"])):
+                mech = "mismatch:getitem:int_and_list_nonadjacent"
+        return ("mismatch", r, mech)
     return None
 
 
